@@ -236,11 +236,20 @@ def fmtOutput : Output V → String
   | .one y => fmtVal y
   | .samples cols g => s!"smp {g} {fmtMat cols}"
 
+/-- `eqr` = two bits: evaluating `D == R` raises / evaluating `R == D` raises (left operand = the array's geometry) -/
+def withEqr (eqr : String) (D R : Geom V) : Option (Geom V × Geom V) :=
+  match eqr.toList with
+  | [a, b] => do
+      let a ← parseBool (String.singleton a)
+      let b ← parseBool (String.singleton b)
+      some ({ D with eqRaises := if b then [R.gid] else [] }, { R with eqRaises := if a then [D.gid] else [] })
+  | _ => none
+
 def step : List String → String
   -- forward on data: fwd M D R input isPar nPos kw(, separated or _)
-  | ["fwd", m, d, r, x, isPar, nPos, kw] =>
-    match parseGeom d, parseGeom r with
-    | some D, some R =>
+  | ["fwd", m, d, r, eqr, x, isPar, nPos, kw] =>
+    match (do let D ← parseGeom d; let R ← parseGeom r; withEqr eqr D R) with
+    | some (D, R) =>
       match parseModel m R D, parseInput x, parseBool isPar, nPos.toNat? with
       | some M, some x, some isPar, some nPos =>
         let kw := if kw = "_" then [] else kw.splitOn ","
@@ -249,7 +258,7 @@ def step : List String → String
         | .ok (.model _) => "bad-op"
         | .error e => fmtErr e
       | _, _, _, _ => "bad-op"
-    | _, _ => "bad-op"
+    | none => "bad-op"
   -- forward on a distribution: dist M D R domainDim distDim name nPos kw
   | ["dist", m, d, r, ddim, dim, name, nPos, kw] =>
     match parseGeom d, parseGeom r with
@@ -269,9 +278,9 @@ def step : List String → String
       | _, _, _, _ => "bad-op"
     | _, _ => "bad-op"
   -- gradient: grad M D R dir wrt isDirPar isWrtPar
-  | ["grad", m, d, r, dir, wrt, idp, iwp] =>
-    match parseGeom d, parseGeom r with
-    | some D, some R =>
+  | ["grad", m, d, r, eqr, dir, wrt, idp, iwp] =>
+    match (do let D ← parseGeom d; let R ← parseGeom r; withEqr eqr D R) with
+    | some (D, R) =>
       match parseModel m R D, parseGArg dir, parseGArg wrt, parseBool idp, parseBool iwp with
       | some M, some dir, some wrt, some idp, some iwp =>
         match gradient M dir wrt idp iwp with
@@ -279,7 +288,7 @@ def step : List String → String
         | some (.error e) => fmtErr e
         | none => "unmodelled"
       | _, _, _, _, _ => "bad-op"
-    | _, _ => "bad-op"
+    | none => "bad-op"
   | _ => "bad-op"
 
 def main : IO Unit := runDriver step
